@@ -119,6 +119,7 @@ func C09(c *core.Ctx) {
 	c09NameCoherence(c)
 	c09RawIsOneElement(c)
 	c09ClassifiedAddressIsSet(c)
+	c09FallBack(c)
 
 	// ---- R9.3a: sendFrame is only called inside fw/face.
 	nFrame := 0
